@@ -4,7 +4,7 @@ from __future__ import annotations
 
 import collections
 
-from ..common import Report, main_wrapper, scratch, seed
+from ..common import Report, main_wrapper, scratch, eff_seed
 from ..machine import run_units, trap_kind
 from .. import parunits
 from .args import parse
@@ -17,7 +17,7 @@ def main():
     rep = Report("C09", a.tier, "model_checking")
     quick = a.tier == "quick"
     sel = (lambda m, p: a.only in p.name()) if a.only else None
-    recs = parunits.run(MODULES, seed(), cap=12 if quick else 48, select=sel, max_targets=8 if quick else None)
+    recs = parunits.run(MODULES, eff_seed(), cap=12 if quick else 48, select=sel, max_targets=8 if quick else None)
     stat = collections.Counter(r["status"] for r in recs)
     units = [r["unit"] for r in recs if r["status"] == "compiled"]
     owners = [r for r in recs if r["status"] == "compiled"]
